@@ -346,7 +346,7 @@ def write_replay(pid, tag, payload):
     os.makedirs(d, exist_ok=True)
     h = hashlib.sha1(json.dumps(payload, sort_keys=True, default=str).encode()).hexdigest()[:10]
     p = os.path.join(d, f"{pid}_{tag}_{h}.json")
-    json.dump(payload, open(p, "w"), indent=1, ensure_ascii=False, default=str)
+    json.dump(payload, open(p, "w"), indent=1, ensure_ascii=True, default=str)
     return p
 
 
@@ -575,7 +575,7 @@ def run_check(plug: Plugin, tier: str, seed: int, level_note=""):
     }
     evdir = os.environ.get("VERIF_EVIDENCE_DIR") or os.path.join(ROOT, "evidence")  # override: developer tools only (seed matrix)
     os.makedirs(evdir, exist_ok=True)
-    json.dump(ev, open(os.path.join(evdir, f"{pid}.json"), "w"), indent=1, ensure_ascii=False)
+    json.dump(ev, open(os.path.join(evdir, f"{pid}.json"), "w"), indent=1, ensure_ascii=True)
     log(f"[{pid}] {tier}: {evaluations} evaluated, {len(nontriv)} non-trivial, {ndiff} diffs, {nbad} failures, "
         f"obligations {obl['discharged']}/{obl['obligations']}, {wall:.1f}s, rc={rc}")
     return rc
